@@ -172,8 +172,13 @@ META["C03"] = {
 PWB_FUNCS = ["alpha_g_detector::padwing::<PwbV2Packet as TryFrom<&[u8]>>::try_from", "<PwbPacket as TryFrom<&[u8]>>::try_from",
              "padwing::BoardId::try_from([u8;6])", "padwing::ChannelId::try_from(u16)", "AfterId::try_from(char)",
              "Compression/Trigger::try_from(u8)", "PwbV2Packet accessors incl. waveform_at"]
-PWB_LOOPS = [("BoardId", 73), ("known_mac", 73), ("c05::spec", 81), ("list_matches_mask", 81), ("pwb_iff_body", 81),
-             ("c05::shape", 22), ("memcmp", 8)]
+def pwb_loops(nchan):
+    # the two mask scans `while num != 0 { .. leading_zeros .. }` are not constant-folded by CBMC: give them exactly
+    # popcount+2 iterations (unwinding assertions prove that is enough) instead of the default
+    return [("BoardId", 73), ("known_mac", 73), ("c05::spec", 81), ("list_matches_mask", 81), ("pwb_iff_body", 81),
+            ("c05::shape", 22), ("memcmp", 8), ("ChunksExact", 40), ("rfold", nchan + 2), ("IntoIter", nchan + 2),
+            ("TryFromRShE8try_from.", nchan + 2)]
+PWB_LOOPS = pwb_loops(2)
 def bpc(rs):
     return 4 + 2 * rs + (2 if rs % 2 else 0)
 def pwb(name, L, s0, s1, t, rs, sched, wit, est=100, nochan=False):
@@ -181,7 +186,8 @@ def pwb(name, L, s0, s1, t, rs, sched, wit, est=100, nochan=False):
         expr = "crate::c05::pwb_iff_nochan::<%d, %d>" % (L, t)
     else:
         expr = "crate::c05::pwb_iff::<%d, %d, %d, %d, %d>" % (L, s0, s1, t, rs)
-    add(name=name, prop="C05", crate="det", expr=expr, unwind=16, unwindset=PWB_LOOPS, cap_s=2400, mem_gb=6, est_s=est,
+    nchan = (1 if s0 >= 0 else 0) + (1 if s1 >= 0 else 0)
+    add(name=name, prop="C05", crate="det", expr=expr, unwind=16, unwindset=pwb_loops(max(nchan, 1)), cap_s=2400, mem_gb=6, est_s=est,
         family="pwb_iff", funcs=PWB_FUNCS, witnesses=wit, sched=sched,
         params={"len": L, "sent_bits": [x for x in (s0, s1) if x >= 0], "over_threshold": {-1: "none", -2: "same as sent"}.get(t, t),
                 "requested_samples": "symbolic" if nochan else rs})
@@ -261,7 +267,7 @@ for (L, s0, s1, t, rs) in PWB_TOTAL_SHAPES:
     nm = "c01_pwb_total_%d_%s_%s_%d" % (L, ("s%d" % s0) if s0 >= 0 else "none", ("t%d" % t) if t >= 0 else ("tsame" if t == -2 else "tnone"), rs)
     c01(nm, "crate::c05::pwb_total::<%d, %d, %d, %d, %d>" % (L, s0, s1, t, rs), 16,
         "always" if (L, s0, rs) in ((56, -1, 0), (64, 0, 2), (64, 79, 2)) else "pool", est=60,
-        unwindset=[("BoardId", 73), ("c05::shape", 22), ("memcmp", 8)], funcs=PWB_FUNCS[:2],
+        unwindset=pwb_loops(2), funcs=PWB_FUNCS[:2],
         params={"len": L, "sent": s0, "over_threshold": t, "requested_samples": rs}, mem=5, cap=1500)
 
 
@@ -383,24 +389,56 @@ add(name="c08_wire_pad_column", prop="C08", crate="phys", expr="crate::c08p::wir
 # ------------------------------------------------------------------ C18 ----
 DRIFT_FUNCS = ["alpha_g_physics::drift::DriftTables::at", "drift::DriftTable::at", "uom f64 quantity arithmetic (Time/Length/Angle)",
                "verif_drift::VerifDriftTables::{new, at} (hook)"]
-DRIFT_LOOPS = [("VerifDriftTables", 542), ("position", 542), ("DriftTable", 542), ("Quantity", 542), ("slice_selection", 96)]
-DRIFT_TABLE_KEYS = [0, 91, 5, 6, 30, 60, 45, 75, 15, 85, 1, 90, 20, 40, 70, 50]
-for idx, K in enumerate(DRIFT_TABLE_KEYS):
-    first = idx < 2
-    for fam, body, wit, est, mem, klass in (
-            ("range_and_bounds", "range_and_bounds", ["inside", "beyond-last-knot", "before-first-knot"], 600, 10, "core"),
-            ("knots", "knots", ["first-knot", "last-knot"], 600, 10, "core"),
-            ("symmetry", "symmetry", ["inside"], 900, 14, "best"),
-            ("monotone_continuous", "monotone_continuous", ["two-inside"], 2400, 20, "best")):
-        add(name="c18_%s_%d" % (fam, K), prop="C18", crate="phys", expr="crate::c18::%s::<%d>" % (body, K), unwind=4,
-            unwindset=DRIFT_LOOPS, cap_s=3 * est + 600, mem_gb=mem, est_s=est, family=fam, funcs=DRIFT_FUNCS, witnesses=wit,
-            klass=klass, sched=("always" if first and fam in ("range_and_bounds", "knots") else
-                               ("pool" if fam in ("range_and_bounds", "knots") else "thorough")),
-            params={"table": K, "t": "[-1e-6, 5e-6] s", "z": "within the slice"})
-add(name="c18_slice_selection", prop="C18", crate="phys", expr="crate::c18::slice_selection", unwind=4, unwindset=DRIFT_LOOPS,
-    cap_s=1800, mem_gb=8, est_s=120, family="slice_selection", funcs=DRIFT_FUNCS[:1] + DRIFT_FUNCS[3:], witnesses=["inside", "outside"],
-    params={"z": "[-1.3, 1.3] m", "bounds": "all 92 real z bounds"})
-
+DRIFT_LOOPS = [("VerifDriftTables", 96), ("position", 542), ("DriftTable", 542), ("Quantity", 542), ("slice_selection", 96)]
+def _drift_lengths():
+    import json, os
+    p = "/repo/physics/data/simulation/drift_table/drift_1T_70Ar_30CO2.json"
+    try:
+        return [len(t[0]) for t in json.load(open(p))]
+    except Exception:
+        return [537] * 92
+DRIFT_LEN = _drift_lengths()
+MODES = {0: "full", 1: "first12", 2: "last12", 3: "mid48"}
+def drift(K, M, sched, klass="core", fams=("range_and_bounds", "knots", "symmetry", "monotone_continuous")):
+    n = {0: DRIFT_LEN[K], 1: 12, 2: 12, 3: 48}[M]
+    heavy = n > 100
+    for fam in fams:
+        two = fam in ("symmetry", "monotone_continuous")
+        wit = {"range_and_bounds": ["inside", "beyond-last-knot", "before-first-knot"], "knots": ["first-knot", "last-knot"],
+               "symmetry": ["inside"], "monotone_continuous": ["two-inside"]}[fam]
+        est = (2400 if heavy else 60) * (2 if two else 1)
+        add(name="c18_%s_t%d_%s" % (fam, K, MODES[M]), prop="C18", crate="phys", expr="crate::c18::%s::<%d, %d>" % (fam, K, M),
+            unwind=4, unwindset=[(p, n + 5) for p, _ in DRIFT_LOOPS], cap_s=3 * est + 300, mem_gb=12 if heavy else 4, est_s=est,
+            family=fam, funcs=DRIFT_FUNCS, witnesses=wit, klass=("best" if (heavy or fam == "monotone_continuous") else klass), sched=sched,
+            params={"table": K, "knots": MODES[M], "of": DRIFT_LEN[K], "t": "[-1e-6, 5e-6] s", "z": "within the slice"})
+for K in range(92):
+    q = "always" if K in (0, 91) else "pool"
+    drift(K, 1, q)
+    drift(K, 2, q)
+for K in (0, 6, 45, 91):
+    drift(K, 3, "pool" if K in (0, 91) else "thorough")
+for K in (0, 91, 6):
+    drift(K, 0, "thorough", klass="best", fams=("range_and_bounds", "knots"))
+for J in range(12):
+    add(name="c18_slice_selection_%d" % J, prop="C18", crate="phys", expr="crate::c18::slice_selection::<%d>" % J, unwind=12,
+        cap_s=1500, mem_gb=5, est_s=120, family="slice_selection", funcs=DRIFT_FUNCS[:1] + DRIFT_FUNCS[3:], witnesses=["inside", "outside"],
+        sched="always" if J in (0, 11) else "pool",
+        params={"z": "[-1.3, 1.3] m", "bounds": "real z bounds %d..%d" % (8 * J, min(8 * J + 8, 92))})
+META["C18"] = {
+    "pool_k": 4,
+    "budget_s": {"thorough": 5 * 3600},
+    "bounds": "per real table K (tables as alpha_g_physics loads them, dumped bit-exactly at every run): windows of consecutive real "
+              "knots - first 12, last 12 (all 92 tables in thorough; tables 0 and 91 plus 4 seeded in quick), the 48 middle knots "
+              "(tables 0, 6, 45, 91) and the complete tables 0, 6, 91 (best effort) - t in [-1e-6, 5e-6] s, z anywhere in the slice: "
+              "range iff / error kind, radius and correction bounds, knot reproduction to 1e-12; slice selection and its z symmetry "
+              "over the 92 real z bounds in 12 windows of 8; two-lookup clauses (monotone, 8 ns continuity, per-table symmetry) are "
+              "best effort. Loops: knots+5 for the search, 12 for slice loops.",
+    "outside": "t outside [-1e-6, 5e-6] s (NaN in particular); knots of tables that are not in a scheduled window; the two-lookup "
+               "clauses wherever the solver does not finish (reported per run)",
+    "assumptions": ["tables have ascending time, descending radius, ascending correction (checked natively on the dumped data)",
+                    "hook VerifDriftTables::from_static builds DriftTables over read-only statics; inside a window the real lookup "
+                    "brackets t with the same knots as in the full table"],
+}
 
 # ------------------------------------------------------------------ C20 ----
 CBTS_FUNCS = ["alpha-g-chronobox-timestamps::chronobox_time (private fn, text extracted from main.rs at every run)",
@@ -503,3 +541,11 @@ META["C04"] = {
     "assumptions": ["Chunk::verif_from_parts builds what Chunk::try_from would accept (C03 decides the wire format)",
                     "the reference is the documented predicate on the set plus the real slice decoder on the payloads concatenated in id order"],
 }
+
+add(name="probe_pwb_total_two", prop="PROBE", crate="det", expr="crate::c05::pwb_total::<72, 15, 16, -1, 2>", unwind=16,
+    unwindset=pwb_loops(2), sched="always", cap_s=1200, witnesses=[])
+
+add(name="probe_fifo_prefix_8", prop="PROBE2", crate="det", expr="crate::c07::fifo_prefix::<8>", unwind=4, unwindset=fifo_loops(2),
+    cap_s=1500, mem_gb=10, witnesses=["all-words-are-entries"], solver="minisat")
+add(name="probe_fifo_prefix_4", prop="PROBE2", crate="det", expr="crate::c07::fifo_prefix::<4>", unwind=4, unwindset=fifo_loops(1),
+    cap_s=1500, mem_gb=10, witnesses=["all-words-are-entries"], solver="minisat")
